@@ -573,3 +573,459 @@ End Ext.
 (* ================================================================== 5. the lossy back-end satisfies the laws *)
 Theorem lossy_laws : ParaLaws lossy_para_like.
 Proof. constructor; reflexivity. Qed.
+
+(* ================================================================== 6. the tree model of lossless::Paragraph satisfies the laws *)
+Section TreeInd.
+  Variable K : Type.
+  Variable P : elem K -> Prop.
+  Hypothesis Htok : forall k s, P (Tok k s).
+  Hypothesis Hnode : forall k cs, Forall P cs -> P (Node k cs).
+  Fixpoint elem_ind' (e : elem K) : P e :=
+    match e with
+    | Tok k s => Htok k s
+    | Node k cs => Hnode k cs ((fix go (l : list (elem K)) : Forall P l :=
+                                  match l with
+                                  | [] => Forall_nil P
+                                  | x :: r => Forall_cons x (elem_ind' x) (go r)
+                                  end) cs)
+    end.
+End TreeInd.
+
+(* the (name, value) a child of a PARAGRAPH node contributes to items() *)
+Definition item_of (c : tree) : list (str * str) :=
+  if is_node c && is_kind ENTRY c
+  then match entry_key c with Some k => [(k, entry_value c)] | None => [] end
+  else [].
+
+Lemma flat_map_filter {A B} (f : A -> list B) (g : A -> bool) l :
+  flat_map f (filter g l) = flat_map (fun x => if g x then f x else []) l.
+Proof. induction l as [|x r IH]; [reflexivity|]. cbn [filter flat_map]. destruct (g x); cbn [flat_map]; rewrite IH; reflexivity. Qed.
+
+Lemma ll_items_flat cs : ll_items cs = flat_map item_of cs.
+Proof.
+  unfold ll_items, items, entries, node_children_of_kind, ll_node. cbn [children].
+  rewrite flat_map_filter. apply flat_map_ext. intros c. unfold item_of. reflexivity.
+Qed.
+
+Lemma is_entry_with_key_item k c :
+  is_entry_with_key k c = match item_of c with [(n, _)] => str_eqb n k | _ => false end.
+Proof.
+  unfold is_entry_with_key, item_of. destruct (is_node c && is_kind ENTRY c); [|reflexivity].
+  cbn [andb]. destruct (entry_key c); reflexivity.
+Qed.
+Lemma item_of_cases c : item_of c = [] \/ exists n v, item_of c = [(n, v)].
+Proof.
+  unfold item_of. destruct (is_node c && is_kind ENTRY c); [|left; reflexivity].
+  destruct (entry_key c) as [n|]; [right; eexists; eexists; reflexivity|left; reflexivity].
+Qed.
+
+Lemma ll_get_items cs k : ll_get cs k = l_get (ll_items cs) k.
+Proof.
+  rewrite ll_items_flat. unfold ll_get, get, entries, node_children_of_kind, ll_node. cbn [children].
+  induction cs as [|c r IH]; [reflexivity|]. cbn [filter flat_map]. unfold item_of at 1.
+  destruct (is_node c && is_kind ENTRY c) eqn:Ec; [|exact IH]. cbn [filter].
+  destruct (entry_key c) as [n|] eqn:Ek; cbn [opt_str_eqb app].
+  - cbn [l_get]. destruct (str_eqb n k); [reflexivity|exact IH].
+  - exact IH.
+Qed.
+
+(* ---- Entry::new ---- *)
+Definition tok_texts (K : kind) (l : list tree) : list str :=
+  flat_map (fun c => match c with Tok k' s => if kind_eqb k' K then [s] else [] | Node _ _ => [] end) l.
+Lemma token_texts_children K e : token_texts_of_kind K e = tok_texts K (children e).
+Proof. reflexivity. Qed.
+
+Lemma tok_texts_cons K c l : tok_texts K (c :: l) =
+  (match c with Tok k' s => if kind_eqb k' K then [s] else [] | Node _ _ => [] end) ++ tok_texts K l.
+Proof. reflexivity. Qed.
+Ltac kind_eqb_compute :=
+  repeat match goal with
+         | |- context [kind_eqb ?a ?b] =>
+           is_constructor a; is_constructor b;
+           let r := eval vm_compute in (kind_eqb a b) in change (kind_eqb a b) with r
+         end.
+Lemma value_lines_key b ls : tok_texts KEY (value_lines b ls) = [].
+Proof.
+  revert b. induction ls as [|l r IH]; intros b; [reflexivity|].
+  destruct b; cbn [value_lines app]; rewrite !tok_texts_cons; kind_eqb_compute; cbn [app]; apply IH.
+Qed.
+Lemma value_lines_value b ls : tok_texts VALUE (value_lines b ls) = ls.
+Proof.
+  revert b. induction ls as [|l r IH]; intros b; [reflexivity|].
+  destruct b; cbn [value_lines app]; rewrite !tok_texts_cons; kind_eqb_compute; cbn [app]; rewrite IH; reflexivity.
+Qed.
+
+Lemma item_of_new_entry k v : item_of (new_entry k v) = [(k, v)].
+Proof.
+  unfold item_of, new_entry. cbn [is_node is_kind ekind andb]. change (kind_eqb ENTRY ENTRY) with true. cbv iota.
+  unfold entry_key, entry_value. rewrite !token_texts_children. cbn [children].
+  assert (Hk : tok_texts KEY (Tok KEY k :: Tok COLON [58%N] :: Tok WHITESPACE [32%N] :: value_lines true (split_lf v)) = [k]).
+  { rewrite !tok_texts_cons. kind_eqb_compute. cbn [app]. rewrite value_lines_key. reflexivity. }
+  assert (Hv : tok_texts VALUE (Tok KEY k :: Tok COLON [58%N] :: Tok WHITESPACE [32%N] :: value_lines true (split_lf v)) = split_lf v).
+  { rewrite !tok_texts_cons. kind_eqb_compute. cbn [app]. apply value_lines_value. }
+  rewrite Hk, Hv. change [10%N] with [LF]. rewrite join_split_lf. reflexivity.
+Qed.
+
+Lemma ll_items_of_list l : ll_items (ll_of_list l) = l.
+Proof.
+  rewrite ll_items_flat. unfold ll_of_list. induction l as [|[k v] r IH]; [reflexivity|].
+  cbn [map flat_map fst snd]. rewrite item_of_new_entry, IH. reflexivity.
+Qed.
+
+(* ---- list-level set with a known decomposition ---- *)
+Lemma l_set_existing_decomp a k x b v : l_get a k = None ->
+  l_set_existing (a ++ (k, x) :: b) k v = Some (a ++ (k, v) :: b).
+Proof.
+  induction a as [|[n y] r IH]; intros H; cbn [app l_set_existing].
+  - rewrite str_eqb_refl. reflexivity.
+  - cbn [l_get] in H. destruct (str_eqb n k); [discriminate|]. rewrite (IH H). reflexivity.
+Qed.
+Lemma l_set_existing_none l k v : l_get l k = None -> l_set_existing l k v = None.
+Proof.
+  induction l as [|[n y] r IH]; intros H; [reflexivity|]. cbn [l_set_existing]. cbn [l_get] in H.
+  destruct (str_eqb n k); [discriminate|]. rewrite (IH H). reflexivity.
+Qed.
+
+Lemma items_no_key a k : forallb (fun x => negb (is_entry_with_key k x)) a = true -> l_get (flat_map item_of a) k = None.
+Proof.
+  induction a as [|c r IH]; [reflexivity|]. cbn [forallb flat_map]. intros H. apply andb_true_iff in H. destruct H as [Hc Hr].
+  rewrite is_entry_with_key_item in Hc. destruct (item_of_cases c) as [E0|(n & v & E0)]; rewrite E0 in *; cbn [app].
+  - apply IH. exact Hr.
+  - cbn [l_get]. apply negb_true_iff in Hc. rewrite Hc. apply IH. exact Hr.
+Qed.
+
+Lemma replace_first_entry_spec cs k e :
+  match replace_first_entry cs k e with
+  | Some cs' => exists a c b, cs = a ++ c :: b /\ cs' = a ++ e :: b /\ is_entry_with_key k c = true /\
+                              forallb (fun x => negb (is_entry_with_key k x)) a = true
+  | None => forallb (fun x => negb (is_entry_with_key k x)) cs = true
+  end.
+Proof.
+  induction cs as [|c r IH]; [reflexivity|]. cbn [replace_first_entry forallb].
+  destruct (is_entry_with_key k c) eqn:Ec.
+  - exists [], c, r. repeat split. exact Ec.
+  - destruct (replace_first_entry r k e) as [r'|].
+    + destruct IH as (a & c0 & b & E1 & E2 & E3 & E4). exists (c :: a), c0, b. subst. repeat split; [exact E3|].
+      cbn [forallb]. rewrite Ec, E4. reflexivity.
+    + cbn [negb andb]. exact IH.
+Qed.
+
+(* ---- ensure_trailing_newline does not change what items() reports ---- *)
+Lemma ensure_nl_children_eq k cs : children (ensure_nl (Node k cs)) = ensure_nl_children cs.
+Proof. reflexivity. Qed.
+Lemma ensure_nl_children_nil : ensure_nl_children [] = [].
+Proof. reflexivity. Qed.
+Lemma ensure_nl_children_one x : ensure_nl_children [x] =
+  match x with
+  | Tok k' _ => if kind_eqb k' NEWLINE then [x] else [x; Tok NEWLINE [10%N]]
+  | Node _ _ => [ensure_nl x]
+  end.
+Proof. destruct x; reflexivity. Qed.
+Lemma ensure_nl_children_cons x y r : ensure_nl_children (x :: y :: r) = x :: ensure_nl_children (y :: r).
+Proof. reflexivity. Qed.
+Lemma ensure_nl_node k cs : ensure_nl (Node k cs) = Node k (ensure_nl_children cs).
+Proof. reflexivity. Qed.
+
+Lemma tok_texts_ensure K cs : kind_eqb NEWLINE K = false -> tok_texts K (ensure_nl_children cs) = tok_texts K cs.
+Proof.
+  intros HK. induction cs as [|x r IH]; [reflexivity|]. destruct r as [|y r'].
+  - rewrite ensure_nl_children_one. destruct x as [k' s|k' cs']; [|reflexivity].
+    destruct (kind_eqb k' NEWLINE); [reflexivity|]. rewrite !tok_texts_cons, HK. reflexivity.
+  - rewrite ensure_nl_children_cons, !(tok_texts_cons K x), IH. reflexivity.
+Qed.
+
+Lemma item_of_ensure x : item_of (ensure_nl x) = item_of x.
+Proof.
+  destruct x as [k s|k cs]; [reflexivity|]. rewrite ensure_nl_node. unfold item_of.
+  cbn [is_node is_kind ekind]. unfold entry_key, entry_value. rewrite !token_texts_children. cbn [children].
+  rewrite !tok_texts_ensure by reflexivity. reflexivity.
+Qed.
+
+Lemma items_ensure cs : flat_map item_of (ensure_nl_children cs) = flat_map item_of cs.
+Proof.
+  induction cs as [|x r IH]; [reflexivity|]. destruct r as [|y r'].
+  - rewrite ensure_nl_children_one. destruct x as [k' s|k' cs'].
+    + destruct (kind_eqb k' NEWLINE); reflexivity.
+    + cbn [flat_map]. rewrite item_of_ensure. reflexivity.
+  - rewrite ensure_nl_children_cons. cbn [flat_map]. rewrite IH. reflexivity.
+Qed.
+
+Lemma forallb_ensure k cs : forallb (fun x => negb (is_entry_with_key k x)) cs = true ->
+  l_get (flat_map item_of (ensure_nl_children cs)) k = None.
+Proof. intros H. rewrite items_ensure. apply items_no_key. exact H. Qed.
+
+Lemma ll_items_set sk cs k v : ll_items (ll_set sk cs k v) = l_set (ll_items cs) k v.
+Proof.
+  rewrite !ll_items_flat. unfold ll_set.
+  pose proof (replace_first_entry_spec cs k (new_entry k v)) as H.
+  destruct (replace_first_entry cs k (new_entry k v)) as [cs'|].
+  - destruct H as (a & c & b & E1 & E2 & E3 & E4). subst cs cs'. rewrite !flat_map_app. cbn [flat_map].
+    rewrite item_of_new_entry. rewrite is_entry_with_key_item in E3.
+    destruct (item_of_cases c) as [E0|(n & x & E0)]; rewrite E0 in E3; [discriminate|].
+    apply str_eqb_eq in E3. subst n. rewrite E0. cbn [app]. unfold l_set.
+    rewrite l_set_existing_decomp by (apply items_no_key; exact E4). reflexivity.
+  - assert (Hn : l_get (flat_map item_of cs) k = None) by (apply items_no_key; exact H).
+    unfold l_set. rewrite (l_set_existing_none _ _ _ Hn). unfold l_insert.
+    destruct sk; rewrite flat_map_app; cbn [flat_map]; rewrite item_of_new_entry, ?items_ensure, app_nil_r; reflexivity.
+Qed.
+
+Lemma ll_items_remove_all cs k :
+  ll_items (filter (fun c => negb (is_entry_with_key k c)) cs) = l_remove (ll_items cs) k.
+Proof.
+  rewrite !ll_items_flat. unfold l_remove. induction cs as [|c r IH]; [reflexivity|]. cbn [filter flat_map].
+  rewrite filter_app, <- IH. rewrite is_entry_with_key_item.
+  destruct (item_of_cases c) as [E0|(n & x & E0)]; rewrite E0; cbn [negb filter app flat_map fst].
+  - rewrite E0. reflexivity.
+  - destruct (str_eqb n k); cbn [negb]; [reflexivity|]. cbn [flat_map]. rewrite E0. reflexivity.
+Qed.
+
+Theorem lossless_laws sk rk : ll_variants_ok sk rk = true -> ParaLaws (lossless_para_like sk rk).
+Proof.
+  intros Hv. constructor; cbn [pl_get pl_set pl_remove pl_of_list pl_items pl_T lossless_para_like].
+  - apply ll_get_items.
+  - intros p k v. apply ll_items_set.
+  - intros p k. destruct rk; try (destruct sk; discriminate). apply ll_items_remove_all.
+  - apply ll_items_of_list.
+Qed.
+
+(* the variant of remove the code had before 392c6dc does NOT satisfy the remove law *)
+Lemma lossless_remove_first_refuted :
+  let p := ll_of_list [([65], [49]); ([65], [50])]%N in
+  ll_get (ll_remove LlRemoveFirst p [65%N]) [65%N] = Some [50%N].
+Proof. vm_compute. reflexivity. Qed.
+
+(* ================================================================== 7. layout: comments and the text of foreign fields *)
+(* A piece of a printed paragraph: (the field it belongs to, if any; its text).  Over an update the
+   foreign pieces keep their order, label and text, except that line ends may be appended to a piece
+   and pieces consisting of line ends only may appear (the lossless set() terminates an
+   unterminated last line before it appends a field). *)
+Notation piece := (option str * str)%type.
+Definition piece_ext (x y : piece) : Prop := fst x = fst y /\ exists n, snd y = snd x ++ repeat LF n.
+Definition lf_piece (y : piece) : Prop := fst y = None /\ exists n, snd y = repeat LF n.
+Inductive lay_rel : list piece -> list piece -> Prop :=
+| lr_nil : lay_rel [] []
+| lr_keep x y l l' : piece_ext x y -> lay_rel l l' -> lay_rel (x :: l) (y :: l')
+| lr_ins y l l' : lf_piece y -> lay_rel l l' -> lay_rel l (y :: l').
+
+Lemma piece_ext_refl x : piece_ext x x.
+Proof. split; [reflexivity|]. exists 0. cbn. rewrite app_nil_r. reflexivity. Qed.
+Lemma piece_ext_trans x y z : piece_ext x y -> piece_ext y z -> piece_ext x z.
+Proof.
+  intros [H1 (n & Hn)] [H2 (m & Hm)]. split; [congruence|]. exists (n + m). rewrite Hm, Hn, <- app_assoc, repeat_app. reflexivity.
+Qed.
+Lemma lf_piece_ext x y : lf_piece x -> piece_ext x y -> lf_piece y.
+Proof.
+  intros [H1 (n & Hn)] [H2 (m & Hm)]. split; [congruence|]. exists (n + m). rewrite Hm, Hn, repeat_app. reflexivity.
+Qed.
+Lemma lay_rel_refl l : lay_rel l l.
+Proof. induction l; [constructor|apply lr_keep; [apply piece_ext_refl|assumption]]. Qed.
+Lemma lay_rel_trans b c : lay_rel b c -> forall a, lay_rel a b -> lay_rel a c.
+Proof.
+  induction 1 as [|x y b c Hxy _ IH|y b c Hy _ IH]; intros a H1.
+  - exact H1.
+  - inversion H1 as [|x0 ? a' ? Hx0 Ha'|? ? ? Hlf Ha']; subst.
+    + apply lr_keep; [eapply piece_ext_trans; eassumption|apply IH; exact Ha'].
+    + apply lr_ins; [eapply lf_piece_ext; eassumption|apply IH; exact Ha'].
+  - apply lr_ins; [exact Hy|apply IH; exact H1].
+Qed.
+Lemma lay_rel_app a a' b b' : lay_rel a a' -> lay_rel b b' -> lay_rel (a ++ b) (a' ++ b').
+Proof. induction 1; intros Hb; cbn [app]; [exact Hb|apply lr_keep; auto|apply lr_ins; auto]. Qed.
+
+Record LayoutLaws (PL : ParaLike) (render : str -> str -> str) : Prop := mk_layout_laws {
+  law_lay_set : forall p k v,
+    match lay_set_existing (pl_layout PL p) k (render k v) with
+    | Some l => pl_layout PL (pl_set PL p k v) = l
+    | None => exists l0, lay_rel (pl_layout PL p) l0 /\
+                         pl_layout PL (pl_set PL p k v) = l0 ++ [(Some k, render k v)]
+    end;
+  law_lay_remove : forall p k, pl_layout PL (pl_remove PL p k) = lay_remove (pl_layout PL p) k }.
+
+Section LayoutSteps.
+Variable G : option str -> bool.
+Notation keep := (fun x : piece => G (fst x)).
+
+Lemma lab_is_label k (x : piece) : lab_is k x = true -> fst x = Some k.
+Proof.
+  unfold lab_is. destruct x as [[n|] t]; cbn [fst opt_str_eqb]; [|discriminate]. intros H. apply str_eqb_eq in H. congruence.
+Qed.
+
+Lemma filter_lay_set_existing l k t l' : G (Some k) = false -> lay_set_existing l k t = Some l' ->
+  filter keep l' = filter keep l.
+Proof.
+  intros HG. revert l'. induction l as [|x r IH]; intros l' H; cbn [lay_set_existing] in H; [discriminate|].
+  destruct (lab_is k x) eqn:El.
+  - injection H as <-. cbn [filter fst]. rewrite (lab_is_label _ _ El), HG. reflexivity.
+  - destruct (lay_set_existing r k t) as [r'|]; [|discriminate]. injection H as <-. cbn [filter]. rewrite (IH r' eq_refl). reflexivity.
+Qed.
+Lemma filter_lay_remove l k : G (Some k) = false -> filter keep (lay_remove l k) = filter keep l.
+Proof.
+  intros HG. unfold lay_remove. induction l as [|x r IH]; [reflexivity|]. cbn [filter].
+  destruct (lab_is k x) eqn:El; cbn [negb].
+  - rewrite (lab_is_label _ _ El), HG. exact IH.
+  - cbn [filter]. rewrite IH. reflexivity.
+Qed.
+Lemma lay_rel_filter l l0 : lay_rel l l0 -> lay_rel (filter keep l) (filter keep l0).
+Proof.
+  induction 1 as [|x y l l0 [Hl Ht] _ IH|y l l0 Hy _ IH]; [constructor| |]; cbn [filter].
+  - rewrite <- Hl. destruct (G (fst x)); [apply lr_keep; [split; assumption|exact IH]|exact IH].
+  - destruct (G (fst y)); [apply lr_ins; assumption|exact IH].
+Qed.
+End LayoutSteps.
+
+Section LayoutThm.
+Variable E : Type.
+Variable ext_print : N -> E -> str.
+Variable PL : ParaLike.
+Variable render : str -> str -> str.
+Hypothesis lay : LayoutLaws PL render.
+
+Lemma update_layout_gen (G : option str -> bool) fs : forall (v : list (option (uval E))) p p',
+  (forall f, In f fs -> G (Some (f_key f)) = false) ->
+  update_paragraph E ext_print PL fs v p = Some p' ->
+  lay_rel (filter (fun x => G (fst x)) (pl_layout PL p)) (filter (fun x => G (fst x)) (pl_layout PL p')).
+Proof.
+  induction fs as [|f r IH]; intros [|x xs] p p' HG H; cbn [update_paragraph] in H; try discriminate.
+  - injection H as <-. apply lay_rel_refl.
+  - assert (HGf : G (Some (f_key f)) = false) by (apply HG; left; reflexivity).
+    assert (HGr : forall g, In g r -> G (Some (f_key g)) = false) by (intros g Hg; apply HG; right; exact Hg).
+    destruct x as [u|].
+    + destruct (ser E ext_print (f_ser f) u) as [s|]; [|discriminate].
+      eapply lay_rel_trans; [apply (IH xs _ _ HGr H)|].
+      pose proof (law_lay_set _ _ lay p (f_key f) s) as Hs.
+      destruct (lay_set_existing (pl_layout PL p) (f_key f) (render (f_key f) s)) as [l|] eqn:El.
+      * rewrite Hs, (filter_lay_set_existing G _ _ _ _ HGf El). apply lay_rel_refl.
+      * destruct Hs as (l0 & H0 & ->). rewrite filter_app. cbn [filter fst]. rewrite HGf, app_nil_r.
+        apply lay_rel_filter. exact H0.
+    + destruct (f_opt f); [|discriminate].
+      eapply lay_rel_trans; [apply (IH xs _ _ HGr H)|].
+      rewrite (law_lay_remove _ _ lay), (filter_lay_remove G _ _ HGf). apply lay_rel_refl.
+Qed.
+
+(* pieces that are comments / separators (no label) or belong to a field the struct does not own *)
+Definition foreign_piece (fs : list fieldspec) (x : piece) : bool :=
+  match fst x with Some k => negb (owned fs k) | None => true end.
+
+Theorem derive_update_layout fs v p p' : update_paragraph E ext_print PL fs v p = Some p' ->
+  lay_rel (filter (foreign_piece fs) (pl_layout PL p)) (filter (foreign_piece fs) (pl_layout PL p')).
+Proof.
+  intros H. apply (update_layout_gen (fun o => match o with Some k => negb (owned fs k) | None => true end) fs v p p'); [|exact H].
+  intros f Hf. apply negb_false_iff, owned_In, in_map. exact Hf.
+Qed.
+End LayoutThm.
+
+(* ---- the lossy paragraph: each field is one piece, printed by Display for Field ---- *)
+Lemma lossy_lay_set_existing p k v :
+  lay_set_existing (pl_layout lossy_para_like p) k (print_field (k, v)) =
+  match l_set_existing p k v with Some p' => Some (pl_layout lossy_para_like p') | None => None end.
+Proof.
+  cbn [pl_layout lossy_para_like]. induction p as [|[n x] r IH]; [reflexivity|].
+  cbn [map lay_set_existing l_set_existing fst]. unfold lab_is at 1. cbn [fst opt_str_eqb].
+  destruct (str_eqb n k) eqn:En.
+  - apply str_eqb_eq in En. subst n. reflexivity.
+  - rewrite IH. destruct (l_set_existing r k v); reflexivity.
+Qed.
+Theorem lossy_layout_laws : LayoutLaws lossy_para_like (fun k v => print_field (k, v)).
+Proof.
+  constructor.
+  - intros p k v. rewrite lossy_lay_set_existing. cbn [pl_set lossy_para_like]. unfold l_set.
+    destruct (l_set_existing p k v) as [p'|]; [reflexivity|].
+    exists (pl_layout lossy_para_like p). split; [apply lay_rel_refl|].
+    cbn [pl_layout lossy_para_like]. unfold l_insert. rewrite map_app. reflexivity.
+  - intros p k. cbn [pl_layout pl_remove lossy_para_like]. unfold l_remove, lay_remove.
+    induction p as [|[n x] r IH]; [reflexivity|]. cbn [filter map fst]. unfold lab_is at 1. cbn [fst opt_str_eqb].
+    destruct (str_eqb n k); cbn [negb]; [exact IH|]. cbn [map]. rewrite IH. reflexivity.
+Qed.
+
+(* ---- the lossless paragraph: each child of the PARAGRAPH node is one piece ---- *)
+Definition ll_piece (c : tree) : piece := (if is_node c && is_kind ENTRY c then entry_key c else None, text c).
+Lemma ll_layout_map cs : ll_layout cs = map ll_piece cs.
+Proof. reflexivity. Qed.
+Lemma lab_is_ll_piece k c : lab_is k (ll_piece c) = is_entry_with_key k c.
+Proof.
+  unfold lab_is, ll_piece, is_entry_with_key. cbn [fst]. destruct (is_node c && is_kind ENTRY c); reflexivity.
+Qed.
+Lemma entry_key_new_entry k v : entry_key (new_entry k v) = Some k.
+Proof.
+  unfold entry_key, new_entry. rewrite token_texts_children. cbn [children].
+  rewrite !tok_texts_cons. kind_eqb_compute. cbn [app]. reflexivity.
+Qed.
+Lemma ll_piece_new_entry k v : ll_piece (new_entry k v) = (Some k, text (new_entry k v)).
+Proof. unfold ll_piece. rewrite entry_key_new_entry. reflexivity. Qed.
+
+Lemma ensure_nl_text : forall e : tree, exists n, text (ensure_nl e) = text e ++ repeat LF n.
+Proof.
+  apply (elem_ind' kind (fun e => exists n, text (ensure_nl e) = text e ++ repeat LF n)).
+  - intros k s. exists 0. cbn. rewrite app_nil_r. reflexivity.
+  - intros k cs IH. rewrite ensure_nl_node, !text_node. induction cs as [|x r IHr]; [exists 0; reflexivity|].
+    inversion IH as [|? ? Hx Hr]; subst. destruct r as [|y r'].
+    + rewrite ensure_nl_children_one. destruct x as [k' s|k' cs'].
+      * destruct (kind_eqb k' NEWLINE); [exists 0; rewrite app_nil_r; reflexivity|].
+        exists 1. unfold texts. cbn [flat_map text repeat]. rewrite !app_nil_r. reflexivity.
+      * destruct Hx as (n & Hn). exists n. unfold texts. cbn [flat_map]. rewrite !app_nil_r. exact Hn.
+    + rewrite ensure_nl_children_cons. destruct (IHr Hr) as (n & Hn). exists n.
+      rewrite (texts_cons x), (texts_cons x (y :: r')), Hn, app_assoc. reflexivity.
+Qed.
+Lemma ll_piece_ensure x : piece_ext (ll_piece x) (ll_piece (ensure_nl x)).
+Proof.
+  split.
+  - destruct x as [k s|k cs]; [reflexivity|]. rewrite ensure_nl_node. unfold ll_piece. cbn [fst is_node is_kind ekind].
+    unfold entry_key. rewrite !token_texts_children. cbn [children]. rewrite tok_texts_ensure by reflexivity. reflexivity.
+  - unfold ll_piece. cbn [snd]. apply ensure_nl_text.
+Qed.
+Lemma ll_layout_ensure cs : lay_rel (ll_layout cs) (ll_layout (ensure_nl_children cs)).
+Proof.
+  rewrite !ll_layout_map. induction cs as [|x r IH]; [constructor|]. destruct r as [|y r'].
+  - rewrite ensure_nl_children_one. destruct x as [k' s|k' cs'].
+    + destruct (kind_eqb k' NEWLINE) eqn:Ek; [apply lay_rel_refl|].
+      cbn [map]. apply lr_keep; [apply piece_ext_refl|]. apply lr_ins; [|constructor].
+      split; [reflexivity|]. exists 1. reflexivity.
+    + cbn [map]. apply lr_keep; [apply ll_piece_ensure|constructor].
+  - rewrite ensure_nl_children_cons. cbn [map] in *. apply lr_keep; [apply piece_ext_refl|exact IH].
+Qed.
+
+Lemma ll_lay_set_existing_some a c b k t : is_entry_with_key k c = true ->
+  forallb (fun x => negb (is_entry_with_key k x)) a = true ->
+  lay_set_existing (map ll_piece (a ++ c :: b)) k t = Some (map ll_piece a ++ (Some k, t) :: map ll_piece b).
+Proof.
+  intros Hc. induction a as [|x a IH]; intros Ha; cbn [app map lay_set_existing].
+  - rewrite lab_is_ll_piece, Hc. reflexivity.
+  - cbn [forallb] in Ha. apply andb_true_iff in Ha. destruct Ha as [Hx Ha]. apply negb_true_iff in Hx.
+    rewrite lab_is_ll_piece, Hx, (IH Ha). reflexivity.
+Qed.
+Lemma ll_lay_set_existing_none cs k t : forallb (fun x => negb (is_entry_with_key k x)) cs = true ->
+  lay_set_existing (map ll_piece cs) k t = None.
+Proof.
+  induction cs as [|x r IH]; intros H; [reflexivity|]. cbn [forallb] in H. apply andb_true_iff in H. destruct H as [Hx Hr].
+  apply negb_true_iff in Hx. cbn [map lay_set_existing]. rewrite lab_is_ll_piece, Hx, (IH Hr). reflexivity.
+Qed.
+
+Theorem lossless_layout_laws sk rk : ll_variants_ok sk rk = true ->
+  LayoutLaws (lossless_para_like sk rk) (fun k v => text (new_entry k v)).
+Proof.
+  intros Hv. constructor; cbn [pl_layout pl_set pl_remove pl_T lossless_para_like].
+  - intros cs k v. rewrite !ll_layout_map. unfold ll_set.
+    pose proof (replace_first_entry_spec cs k (new_entry k v)) as H.
+    destruct (replace_first_entry cs k (new_entry k v)) as [cs'|].
+    + destruct H as (a & c & b & E1 & E2 & E3 & E4). subst cs cs'.
+      rewrite (ll_lay_set_existing_some _ _ _ _ _ E3 E4). rewrite ll_layout_map, map_app. cbn [map]. rewrite ll_piece_new_entry. reflexivity.
+    + rewrite (ll_lay_set_existing_none _ _ _ H).
+      destruct sk; try discriminate.
+      * exists (map ll_piece cs). split; [apply lay_rel_refl|]. rewrite ll_layout_map, map_app. cbn [map]. rewrite ll_piece_new_entry. reflexivity.
+      * exists (map ll_piece (ensure_nl_children cs)). split; [rewrite <- !ll_layout_map; apply ll_layout_ensure|].
+        rewrite ll_layout_map, map_app. cbn [map]. rewrite ll_piece_new_entry. reflexivity.
+  - intros cs k. destruct rk; try (destruct sk; discriminate). cbn [ll_remove]. rewrite (ll_layout_map cs), (ll_layout_map (filter _ cs)). unfold lay_remove.
+    induction cs as [|x r IH]; [reflexivity|]. cbn [filter map]. rewrite lab_is_ll_piece.
+    destruct (is_entry_with_key k x); cbn [negb]; [exact IH|]. cbn [map]. rewrite IH. reflexivity.
+Qed.
+
+(* the printed paragraph is the concatenation of the pieces *)
+Lemma lossless_text cs : pl_text (lossless_para_like LlSetEnsureNl LlRemoveAll) cs = text (ll_node cs).
+Proof.
+  unfold pl_text, ll_node. cbn [pl_layout lossless_para_like]. rewrite ll_layout_map, text_node.
+  induction cs as [|x r IH]; [reflexivity|]. cbn [map flat_map snd ll_piece]. rewrite IH, texts_cons. reflexivity.
+Qed.
+Lemma lossy_text p : pl_text lossy_para_like p = print_para p.
+Proof.
+  unfold pl_text, print_para. cbn [pl_layout lossy_para_like]. induction p as [|f r IH]; [reflexivity|].
+  cbn [map flat_map snd]. rewrite IH. reflexivity.
+Qed.
